@@ -246,7 +246,7 @@ def execute(case):
                 how = op.get("how", "new")
                 src = actors[op.get("of", 0) % len(actors)] if actors else None
                 obj = None
-                if how == "new" or (src is None and how in ("clone", "load")):
+                if how == "new" or (src is None and how in ("clone", "load", "clone_embedded")):
                     how = "new"
                     obj = construct(op.get("kind", "module"), op.get("t", 0))
                     check_fresh(op.get("kind", "module"), op.get("t", 0), obj, i, "obtain")
@@ -267,6 +267,29 @@ def execute(case):
                         obj = construct("pattern", op.get("t", 0))
                     else:
                         obj = load_bytes(obj_bytes(so))
+                elif how == "clone_embedded":
+                    # a clone of a project EMBEDDED in another actor's MetaModule (not of the MetaModule itself)
+                    so = src["obj"]
+                    mm = None
+                    if isinstance(so, Synth) and type(so.module).__name__ == "MetaModule":
+                        mm = so.module
+                    elif type(so).__name__ == "MetaModule":
+                        mm = so
+                    elif isinstance(so, Project):
+                        mm = next((m for m in so.modules if m is not None and type(m).__name__ == "MetaModule"), None)
+                    if mm is None:
+                        how = "new"
+                        obj = construct(op.get("kind", "module"), op.get("t", 0))
+                    else:
+                        obj = mm.project.clone()
+                elif how == "metascn":
+                    # a constructed (never loaded) project with a configured MetaModule: embedded modules,
+                    # exposed user controllers, mappings onto embedded controllers
+                    sess = builder.Session(layout=case.get("layout", 1))
+                    rr = seeds.rng(op.get("t", 0), "metascn")
+                    for _ in range(3):
+                        sess.apply(builder.gen_op(rr, {"udscn": 1}))
+                    obj = sess.project
                 elif how == "twins":
                     # a *loaded* project that contains two modules with byte-identical,
                     # non-default payload (build, mutate, clone the module, save, load)
@@ -486,7 +509,7 @@ def generate(seed, i, tier="quick"):
     focus_kind = r.choice(KINDS)
 
     def obtain(first):
-        how = r.choice(["new", "new", "new", "twins", "loadfile"]) if first else r.choice(["new", "new", "clone", "load", "loadfile", "twins"])
+        how = r.choice(["new", "new", "new", "twins", "loadfile", "metascn"]) if first else r.choice(["new", "new", "clone", "load", "loadfile", "twins", "clone_embedded", "clone_embedded", "metascn"])
         kind = focus_kind if r.random() < 0.7 else r.choice(KINDS)
         t = focus_t if r.random() < 0.7 else r.randrange(1000)
         return {"k": "obtain", "how": how, "kind": kind, "t": t, "of": r.randrange(4)}
